@@ -15,7 +15,7 @@
   still missing (multi-root documents, the slim classes) is stated under "What is partial".
 -/
 import AHP.Lemmas.Format
-import AHP.Lemmas.FormatLexMulti
+import AHP.Lemmas.FormatLexMini
 namespace AHP.C11
 open AHP AHP.Fmt
 -- the lexer's side (namespace `AHP`) has declarations with the same short names as the formatter model
@@ -130,26 +130,15 @@ theorem formatter_output_lexes (cfg : Cfg) (hi : IndentWS cfg) (toks : List Tok)
     (hroot : ps.root = some (FNode.elem n st sc kids).toNode) (hw : WrapperOK n st sc kids)
     (hs : (FNode.elem n st sc kids).Strict) (hdt : DtOK ps.doctype) :
     ∃ out, format cfg toks = .ok out ∧ lexStrict out = some (docToks cfg ps.doctype n st sc kids) := by
-  have ht := format_tree cfg toks h
-  rw [hp] at ht
-  obtain ⟨fs, hf, hr, hd⟩ := ht
-  refine ⟨renderToksY (styleOf cfg.kind) (docToks cfg ps.doctype n st sc kids), ?_, ?_⟩
-  · rw [format_is_serialised_tree cfg toks fs hf, hr, hd, hroot]
-    unfold docToks
-    by_cases hn : n = wrapper
-    · obtain ⟨_, hsc, _⟩ := hw hn
-      subst hn; subst hsc
-      simp only [if_true]
-      exact doc_render_multi cfg ps.doctype st kids hs
-    · simp only [hn, if_false]
-      exact doc_render cfg ps.doctype n st sc kids hn hs
-  · unfold docToks
-    by_cases hn : n = wrapper
-    · subst hn
-      simp only [if_true]
-      exact doc_lex_multi cfg hi _ kids (strictL_of_wrapper st sc kids hs) hdt
-    · simp only [hn, if_false]
-      exact doc_lex cfg hi _ _ hs hdt
+  refine ⟨renderToksY (styleOf cfg.kind) (docToks cfg ps.doctype n st sc kids),
+    format_text cfg toks h ps hp n st sc kids hroot hw hs, ?_⟩
+  unfold docToks
+  by_cases hn : n = wrapper
+  · subst hn
+    simp only [if_true]
+    exact doc_lex_multi cfg hi _ kids (strictL_of_wrapper st sc kids hs) hdt
+  · simp only [hn, if_false]
+    exact doc_lex cfg hi _ _ hs hdt
 
 /-- trees with the same skeleton have the same canonical skeleton (`cskel` = `skel`, then empty data blocks dropped
     and adjacent data blocks joined) — so `formatter_preserves_document` also reads with `cskel` -/
@@ -185,24 +174,6 @@ theorem formatter_output_reparses (cfg : Cfg) (hi : IndentWS cfg) (toks : List T
     simp only [St.root, rootOfStack, Option.map_some]
     rw [cskel_outRoot cfg hi n st sc kids hs]
 
-/-- the token sequence of a strict single-root document: doctype declaration, then the tokens of the tree — what
-    `lexStrict` returns on every serialisation of such a document (C01) -/
-def strictToks (dt : Option Str) (u : FNode) : List Tok := (dtToks dt ++ u.toks).map Tok.ofToken
-
-/-- the plain parser builds the tree from its token sequence -/
-theorem plain_feed_strictToks (dt : Option Str) (hdt : DtOK dt) (n : Str) (st : AStore) (sc : Bool)
-    (kids : List FNode) (hs : (FNode.elem n st sc kids).Strict) :
-    Plain.feed (strictToks dt (.elem n st sc kids)) = .ok ⟨[], some (FNode.elem n st sc kids).toNode, dt, 0, 0⟩ := by
-  have hrun : Plain.run (strictToks dt (.elem n st sc kids)) {}
-      = .ok ⟨[], some (FNode.elem n st sc kids).toNode, dt, 0, 0⟩ := by
-    unfold strictToks
-    rw [List.map_append, plain_run_dt dt hdt]
-    have := plain_root n st sc kids (strict_buildable _ hs) dt 0 0 []
-    simp only [List.append_nil] at this
-    rw [this]; rfl
-  unfold Plain.feed
-  rw [hrun]
-
 /-- **C11 (string level, token form).**  For every strict single-root document tree `u` (any size, any depth),
     every doctype and every formatter class: feed the formatter the token sequence of the document; its output
     text lexes, and the plain parser builds from it a document with the same doctype and the tree of `u` modulo
@@ -215,6 +186,21 @@ theorem formatter_roundtrip_strict (cfg : Cfg) (hi : IndentWS cfg) (dt : Option 
       ps'.root.map cskel = some (cskel (FNode.elem n st sc kids).toNode) := by
   have hp := plain_feed_strictToks dt hdt n st sc kids hs
   exact formatter_output_reparses cfg hi _ hnw _ hp n st sc kids rfl (fun e => absurd e hn) hs hdt
+
+/-! #### C12c at string level (stated here: the lexer bridge lives with C11; `Props/C12.lean` lists it as partial) -/
+
+/-- **mini² = mini on text.**  Mini class (normal or slim elements), any doctype, any strict single-root document
+    `u` — any size and depth — without adjacent data blocks and without the reserved name: feed the formatter the
+    tokens of `u`; its output text lexes (`lexStrict`), and feeding the formatter those tokens gives the identical
+    text.  (With adjacent data blocks — markup the formatter drops between two text pieces — it fails:
+    `C12.mini_dropped_markup_counterexample`, the known finding.) -/
+theorem mini_output_is_fixed_point_text (cfg : Cfg) (hm : cfg.mini = true) (hi : IndentWS cfg) (dt : Option Str)
+    (hdt : DtOK dt) (n : Str) (st : AStore) (sc : Bool) (kids : List FNode)
+    (hs : (FNode.elem n st sc kids).Strict) (hg : (FNode.elem n st sc kids).Glued)
+    (hnw : (FNode.elem n st sc kids).NoWrapper) :
+    ∃ out toks2, format cfg (strictToks dt (.elem n st sc kids)) = .ok out ∧ lexStrict out = some toks2 ∧
+      format cfg (toks2.map Tok.ofToken) = .ok out :=
+  mini_text_fixed_point cfg hm hi dt hdt n st sc kids hs hg hnw
 
 /-! #### non-vacuity -/
 
@@ -296,6 +282,22 @@ example : ∃ out toks' ps', format (mkCfg .slimMini .dflt true) (strictToks (so
     ps'.doctype = some (str "DOCTYPE html") ∧ ps'.root.map cskel = some (cskel rawTree.toNode) :=
   formatter_roundtrip_strict (mkCfg .slimMini .dflt true) (by decide) _ (by decide) _ _ _ _
     (by simp only [FNode.Strict, StrictL]; decide) (by decide) (by decide)
+
+/-- `mini_output_is_fixed_point_text` on `sampleTree` (white space around text, a `pre` with a nested element, a
+    reference) and on the raw-text document, slim-mini class -/
+example : ∃ out toks2, format (mkCfg .slimMini .dflt true) (strictToks none sampleTree) = .ok out ∧
+    lexStrict out = some toks2 ∧ format (mkCfg .slimMini .dflt true) (toks2.map Tok.ofToken) = .ok out :=
+  mini_output_is_fixed_point_text (mkCfg .slimMini .dflt true) rfl (by decide) none trivial _ _ _ _
+    (by simp only [FNode.Strict, StrictL]; decide)
+    (by simp only [FNode.Glued, GluedL, FNoAdjL, fisDataTok]; decide)
+    (by simp only [FNode.NoWrapper, NoWrapperL]; decide)
+
+example : ∃ out toks2, format (mkCfg .mini .dflt false) (strictToks (some (str "DOCTYPE html")) rawTree) = .ok out ∧
+    lexStrict out = some toks2 ∧ format (mkCfg .mini .dflt false) (toks2.map Tok.ofToken) = .ok out :=
+  mini_output_is_fixed_point_text (mkCfg .mini .dflt false) rfl (by decide) _ (by decide) _ _ _ _
+    (by simp only [FNode.Strict, StrictL]; decide)
+    (by simp only [FNode.Glued, GluedL, FNoAdjL, fisDataTok]; decide)
+    (by simp only [FNode.NoWrapper, NoWrapperL]; decide)
 
 /-- the output texts in question -/
 example : okIs (format (mkCfg .slim (.int 4) true) multiToks)
